@@ -237,6 +237,52 @@ func vfC18Run(run *vfkit.Run, cs *vfC18Case) {
 			return
 		}
 		run.Count("clean_closes_checked", 1)
+	case "half-open":
+		// the outbound direction dies silently (no FIN, no RST, nothing arrives): only the keepalive can notice.
+		// It must close the connection, so that the receive loop fails and the loss is reported - once.
+		silent := make(chan struct{})
+		peer := vfNewPeer(func(pc *vfPeerConn) {
+			if _, err := pc.Negotiate(&vfNeg{Bind: true, ExpectPresence: true}); err != nil {
+				return
+			}
+			<-silent // a peer that neither sends nor closes, whatever happens
+		})
+		defer peer.Stop()
+		defer close(silent)
+		c, obs, err := vfNewClient(vfClientOpt{Addr: peer.Addr(), Insecure: true, Keepalive: iv}, nil)
+		if err != nil {
+			run.Inconclusive("newclient")
+			return
+		}
+		if err := c.Connect(); err != nil {
+			run.Inconclusive("connect")
+			return
+		}
+		defer func() { go c.Disconnect() }()
+		tc, ok := c.transport.(*XMPPTransport).conn.(*net.TCPConn)
+		if !ok {
+			run.Inconclusive("not-tcp")
+			return
+		}
+		tc.CloseWrite() // from now on every write fails; reads would block for ever
+		reported := vfWaitUntil(20*time.Second, func() bool {
+			return len(obs.Errors()) >= 1 && obs.CountState(StateDisconnected) >= 1
+		})
+		if !reported {
+			run.Violation("C18/dead-connection-not-closed-by-keepalive", fmt.Sprintf("writes fail since 20s (keepalive every %v), yet the loss was not reported: %d error callbacks, %d Disconnected events, receive loop alive: %v",
+				iv, len(obs.Errors()), obs.CountState(StateDisconnected), vfClientHasRecv(c)), cs)
+			return
+		}
+		var left []string
+		if !vfWaitUntil(10*time.Second, func() bool { left = vfClientGoroutines(c); return len(left) == 0 }) {
+			run.Violation("C18/goroutine-left-after-keepalive-detected-loss", fmt.Sprintf("%d goroutines of this client are still running", len(left)), map[string]interface{}{"case": cs, "goroutines": left})
+			return
+		}
+		if n, d := len(obs.Errors()), obs.CountState(StateDisconnected); n != 1 || d != 1 {
+			run.Violation("C18/keepalive-detected-loss-reported-more-than-once", fmt.Sprintf("%d error callbacks, %d Disconnected events", n, d), cs)
+			return
+		}
+		run.Count("half_open_losses_detected", 1)
 	case "e2e":
 		var pcc *vfPeerConn
 		mark := 0
@@ -342,6 +388,7 @@ func TestVf_C18(t *testing.T) {
 	for i := 0; i < vfkit.Pick(4, 40); i++ {
 		cases = append(cases, &vfC18Case{Mode: "e2e", Interval: []int{5000, 10000, 20000, 40000}[i%4], K: 10})
 		cases = append(cases, &vfC18Case{Mode: "clean-close", Interval: []int{5000, 10000, 20000, 40000}[i%4], K: 4})
+		cases = append(cases, &vfC18Case{Mode: "half-open", Interval: []int{5000, 10000, 20000, 40000}[i%4], K: 4})
 	}
 	run.Exhaustive(true)
 	var wg sync.WaitGroup
